@@ -61,6 +61,10 @@ def errors_rule(ctx, facts, rid):
             if m and any(y[0] == "const" and y[1] == BAD_PAWN_MASK for y in (m[0][2], m[0][3])):
                 return ("pred", "bad_pawns", d[1] == "Ne")
             return None
+        if d[0] == "bin" and d[1] == "BitAnd" and ("pieces@[1] BitOr pieces@[7]" in s or "pieces@[7] BitOr pieces@[1]" in s) \
+                and any(y[0] == "const" and y[1] == BAD_PAWN_MASK for y in (d[2], d[3])):
+            # the set itself as the scrutinee (`match bits { 0 => .., _ => .. }`): zero exactly when no pawn is misplaced
+            return ("pred", "bad_pawns", True)
         if d[0] == "call" and d[1] == "owlchess::board::Board::is_opponent_king_attacked":
             return ("pred", "opp_attacked", True)
         # normalisation tests and loop control do not influence acceptance
